@@ -166,7 +166,16 @@ def mutate_sigblock(rng, seed):
         return bytes(b), "no-block"
     start, block = loc
     lo, hi = start + 8, start + len(block) - 24 - 4
-    mode = rng.choice(["len-plus", "len-plus", "len-minus", "len-huge", "len-zero", "len-to-end", "cut-inside-block"])
+    mode = rng.choice(["len-plus", "len-plus", "len-minus", "len-huge", "len-zero", "len-to-end", "cut-inside-block", "bytes-after-eocd", "eocd-comment-length-too-small"])
+    if mode == "bytes-after-eocd":
+        # data appended to the archive / not covered by the comment length: the signing block is still found through the last EOCD
+        return bytes(b) + bytes(rng.choice([0, 0x50, rng.randrange(256)]) for _ in range(rng.choice([1, 2, 3, 4, 22, 40, 300]))), mode
+    if mode == "eocd-comment-length-too-small":
+        e = bytes(b).rfind(b"PK\x05\x06")
+        if e >= 0:
+            extra = bytes(rng.randrange(0x20, 0x7F) for _ in range(rng.choice([3, 5, 30])))
+            b += extra       # the comment grows, its length field does not
+            return bytes(b), mode
     # prefer offsets that hold a plausible length (value smaller than the block)
     cands = [p for p in range(lo, hi) if struct.unpack_from("<I", b, p)[0] <= len(block)]
     p = rng.choice(cands) if cands and rng.random() < 0.8 else rng.randrange(lo, hi)
@@ -302,9 +311,11 @@ def hostile_zip(rng, seed):
     b = bytearray(seed)
     n = len(b)
     eocd = bytes(b).rfind(b"PK\x05\x06")
-    choice = rng.choice(["cd-offset-into-itself", "cd-size-max", "entries-max", "comment-len-max", "local-name-len-max"])
+    choice = rng.choice(["cd-offset-into-itself", "cd-size-max", "entries-max", "comment-len-max", "local-name-len-max", "bytes-after-eocd"])
     if eocd < 0:
         return bytes(b), choice
+    if choice == "bytes-after-eocd":
+        return bytes(b) + bytes(rng.choice([0, 0x50, rng.randrange(256)]) for _ in range(rng.choice([1, 2, 3, 4, 22, 40, 300]))), choice
     if choice == "cd-offset-into-itself":
         struct.pack_into("<I", b, eocd + 16, rng.choice([eocd, eocd - 4, 0, n - 1, 0xFFFFFFFF]))
     elif choice == "cd-size-max":
@@ -354,6 +365,7 @@ def shard(ctx, arg):
 
     def budget(n):
         return int(100 * (const + ratio * n))
+    overruns = 0
     for k in range(count):
         name, s = rng.choice(ok_seeds)
         r = rng.random()
@@ -391,6 +403,11 @@ def shard(ctx, arg):
                 wit["data"] = data
             # mechanism = parser + innermost function that was still running (a location, not an input property)
             ctx.violation("%s-loop-in-%s" % (kind, where), "the parser exceeded 100x the step envelope of valid inputs (loop not bounded by the input size)", wit)
+            overruns += 1
+            if overruns >= 3:
+                # the verdict of this shard is settled; every further overrun costs a full budget of monitored steps
+                ctx.count("%s_inputs_not_run_after_three_overruns" % kind, count - k - 1)
+                break
         except MemoryError:
             ctx.count("%s_memory_error" % kind)
         except BaseException as e:
